@@ -92,7 +92,7 @@ PROPS['C01'] = Prop(
 )
 
 PROPS['C02'] = Prop(
-    functions=['_parser:_parse_check', '_parser:ParseState.result', 'policy:Rules.load'],
+    functions=['_parser:_parse_check', '_parser:ParseState.result', 'policy:Rules.load', 'policy:Rules.from_dict'],
     lemmas=[('contracts.parser_table', 'reducer_table')],
     bounded=[('bounded.lang', 'c02')],
     level='other',
